@@ -49,7 +49,7 @@ var singleVariableMatcher = regexp.MustCompile(`^\{([^{}]+)\}$`)
 // Assumes spec is .Validate()d
 // Note that a variable for the port number MUST have a default value and only this value will match as the port (see issue #367).
 func NewRouter(doc *openapi3.T) (routers.Router, error) {
-	servers, err := makeServers(doc.Servers)
+	docServers, err := makeServers(doc.Servers)
 	if err != nil {
 		return nil, err
 	}
@@ -58,6 +58,8 @@ func NewRouter(doc *openapi3.T) (routers.Router, error) {
 	r := &Router{}
 	for _, path := range doc.Paths.InMatchingOrder() {
 		pathItem := doc.Paths.Value(path)
+		// the servers of a path item replace the document's for this path only
+		servers := docServers
 		if len(pathItem.Servers) > 0 {
 			if servers, err = makeServers(pathItem.Servers); err != nil {
 				return nil, err
